@@ -3,6 +3,7 @@ CONSTANTS
   Threads = {a, b, c}
   MaxCommits = 4
   Serialize = TRUE
+  Callbacks = FALSE
 INVARIANTS TypeOK NeverMovesBack ReloadIsFresh
 PROPERTIES PublishedMonotone
 CHECK_DEADLOCK FALSE
